@@ -117,8 +117,7 @@ def run_case(case):
     # healthy workers are never murdered
     for e in k.kill_log:
         if e["ctx"] == "murder" and e["mode"] == "healthy" and e["sig"] in (int(signal.SIGABRT), int(signal.SIGKILL)):
-            old_gen = (e.get("last_reload") is not None and e.get("born") is not None and e["born"] <= e["last_reload"]
-                       and e.get("master_timeout") and e["wtimeout"] * 2 > e["master_timeout"])
+            old_gen = (e.get("old_generation") and e.get("master_timeout") and e["wtimeout"] * 2 > e["master_timeout"])
             V("healthy-never-killed", "healthy-worker-killed-by-timeout-scan" + (":old-generation-after-timeout-lowered" if old_gen else ""),
               {"kill": e, "heartbeat_age": e["hb_age"], "worker_wait_bound": e["wtimeout"], "timeout": T},
               "no ABRT/KILL for a worker whose heartbeat age stays within its bound")
